@@ -2,10 +2,7 @@ use crate::utils::pckg;
 use crate::utils::state::{get_as_string, get_handles_sub_state};
 use duckscript::types::command::{Command, CommandInvocationContext, CommandResult};
 use duckscript::types::runtime::StateValue;
-use encoding_rs::UTF_8;
-use java_properties::PropertiesWriter;
 use std::collections::HashMap;
-use std::str;
 
 #[cfg(test)]
 #[path = "./mod_test.rs"]
@@ -13,15 +10,40 @@ mod mod_test;
 
 // The text stays inside the runtime as a string, so it is written as UTF-8 (the
 // ISO-8859-1 default of the properties format cannot be stored in a string value).
-fn write_utf8(
-    buffer: &mut Vec<u8>,
-    properties: &HashMap<String, String>,
-) -> Result<(), java_properties::PropertiesError> {
-    let mut writer = PropertiesWriter::new_with_encoding(buffer, UTF_8);
-    for (key, value) in properties {
-        writer.write(key, value)?;
+// Control characters are written as \uXXXX escapes with all four digits, which is what
+// the format defines and what map_load_properties reads back.
+fn escape(text: &str) -> String {
+    let mut escaped = String::new();
+    for character in text.chars() {
+        match character {
+            '\\' => escaped.push_str("\\\\"),
+            ' ' => escaped.push_str("\\ "),
+            '\t' => escaped.push_str("\\t"),
+            '\r' => escaped.push_str("\\r"),
+            '\n' => escaped.push_str("\\n"),
+            '\x0c' => escaped.push_str("\\f"),
+            ':' => escaped.push_str("\\:"),
+            '=' => escaped.push_str("\\="),
+            '!' => escaped.push_str("\\!"),
+            '#' => escaped.push_str("\\#"),
+            _ if character < ' ' => escaped.push_str(&format!("\\u{:04x}", character as u32)),
+            _ => escaped.push(character),
+        }
     }
-    writer.finish()
+
+    escaped
+}
+
+fn write_utf8(properties: &HashMap<String, String>) -> String {
+    let mut text = String::new();
+    for (key, value) in properties {
+        text.push_str(&escape(key));
+        text.push('=');
+        text.push_str(&escape(value));
+        text.push('\n');
+    }
+
+    text
 }
 
 #[derive(Clone)]
@@ -82,17 +104,12 @@ impl Command for CommandImpl {
                             properties.insert(var_key, string_value);
                         }
 
-                        let mut buffer: Vec<u8> = vec![];
-                        match write_utf8(&mut buffer, &properties) {
-                            Ok(_) => match str::from_utf8(&buffer) {
-                                Ok(text) => CommandResult::Continue(Some(
-                                    text.trim_end_matches(|c| c == '\n' || c == '\r')
-                                        .to_string(),
-                                )),
-                                Err(error) => CommandResult::Error(error.to_string()),
-                            },
-                            Err(error) => CommandResult::Error(error.to_string()),
-                        }
+                        let text = write_utf8(&properties);
+
+                        CommandResult::Continue(Some(
+                            text.trim_end_matches(|c| c == '\n' || c == '\r')
+                                .to_string(),
+                        ))
                     }
                     _ => CommandResult::Error("Invalid handle provided.".to_string()),
                 },
